@@ -338,6 +338,8 @@ def _commutes_rules(ctx, repo):
     _trace_distance_rules(ctx, repo)
     ctx.decided.append('C08.i no statement discards the result of a value-semantics method (inverse / then / with_* / replace ...): `t.inverse()` without rebinding is a no-op')
     shared.discarded_value_rule(ctx, 'C08.i')
+    ctx.decided.append('C08.j predicates and builders write the private fields of another object only when that object was created in the same function (EigenGate._equal_up_to_global_phase_ zeroes _global_shift on the result of _with_exponent, which therefore must never be self)')
+    shared.foreign_store_rule(ctx, 'C08.j')
 
 
 def _true_trace_distance(angles):
